@@ -636,8 +636,13 @@ def found_member_is_the_answer(F, rep, rule="ISOLATION"):
         fn = F.fns.get(R + fname)
         if fn is None:
             continue
+        fl_ = Flow(fn, fn_body(fn))
         for m in nodes(fn_body(fn), "Match"):
             sc = peel(m["scrut"])
+            if sc.get("k") == "Path" and sc.get("res") == "Local":
+                # the result of the lookup bound to a name first: `let found = self.lookup_global(..); match found { .. }`
+                tr_ = fl_.trace(sc)
+                sc = peel(tr_) if isinstance(tr_, dict) else sc
             if not any(callee(c) == R + "lookup_global" for c in nodes(sc) if c.get("k") == "MethodCall"):
                 continue
             from hir import ppat as _ppat
